@@ -985,34 +985,34 @@ theorem allOutputs_good : ∀ (l : List Nat) (s : St), Inv w0 allow s →
     subst hq2
     exact GoodAt.pure hI2 rfl
 
-theorem unUse_good {s : St} (v n i : Nat) (hI : Inv w0 allow s) (hn : w0.length ≤ n)
+theorem unUse_good {s : St} (v n : Nat) (hI : Inv w0 allow s) (hn : w0.length ≤ n)
     (hva : allow = false → w0.length ≤ v) :
-    GoodAt w0 allow (unUse v n i) s (fun _ _ => True) := by
-  unfold unUse
-  mbind (GoodAt.readVal hI) with vs s1 hI1 hl1 hq1
-  obtain ⟨rfl, hv⟩ := hq1
-  refine ⟨hI1.setUses hv ?_ hva, by simp [setCell], fun _ _ => trivial⟩
-  rw [List.filter_filter]
-  apply List.filter_congr
-  intro u _
-  by_cases hu : u.1 < w0.length
-  · have : u ≠ (n, i) := by
-      intro h; rw [h] at hu; simp at hu; omega
-    simp [hu, this]
-  · simp [hu]
+    GoodAt w0 allow (unUse v n) s (fun _ _ => True) := by
+  unfold GoodAt unUse
+  split
+  · next vs hv =>
+    refine ⟨hI.setUses hv ?_ hva, by simp, fun _ _ => trivial⟩
+    rw [List.filter_filter]
+    apply List.filter_congr
+    intro u _
+    by_cases hu : u.1 < w0.length
+    · have : u.1 ≠ n := by omega
+      simp [hu, this]
+    · simp [hu]
+  · exact ⟨hI, Nat.le_refl _, fun _ _ => trivial⟩
 
 theorem unUses_good (n : Nat) (hn : w0.length ≤ n) :
-    ∀ (l : List (Option Nat)) (i : Nat) (s : St), Inv w0 allow s →
+    ∀ (l : List (Option Nat)) (s : St), Inv w0 allow s →
       (allow = false → ∀ v, some v ∈ l → w0.length ≤ v) →
-      GoodAt w0 allow (unUses n i l) s (fun _ _ => True)
-  | [], i, s, hI, _ => GoodAt.pure hI trivial
-  | none :: rest, i, s, hI, hl => by
+      GoodAt w0 allow (unUses n l) s (fun _ _ => True)
+  | [], s, hI, _ => GoodAt.pure hI trivial
+  | none :: rest, s, hI, hl => by
     unfold unUses
-    exact unUses_good n hn rest (i + 1) s hI (fun ha v hv => hl ha v (List.mem_cons_of_mem _ hv))
-  | some v :: rest, i, s, hI, hl => by
+    exact unUses_good n hn rest s hI (fun ha v hv => hl ha v (List.mem_cons_of_mem _ hv))
+  | some v :: rest, s, hI, hl => by
     unfold unUses
-    mbind (unUse_good v n i hI hn (fun ha => hl ha v List.mem_cons_self)) with u s1 hI1 hl1 hq1
-    exact unUses_good n hn rest (i + 1) s1 hI1 (fun ha v hv => hl ha v (List.mem_cons_of_mem _ hv))
+    mbind (unUse_good v n hI hn (fun ha => hl ha v List.mem_cons_self)) with u s1 hI1 hl1 hq1
+    exact unUses_good n hn rest s1 hI1 (fun ha v hv => hl ha v (List.mem_cons_of_mem _ hv))
 
 theorem detachNode_good {s : St} (n : Nat) (hI : Inv w0 allow s) (hn : w0.length ≤ n) :
     GoodAt w0 allow (detachNode n) s (fun _ _ => True) := by
@@ -1020,7 +1020,7 @@ theorem detachNode_good {s : St} (n : Nat) (hI : Inv w0 allow s) (hn : w0.length
   mbind (GoodAt.readNode hI) with ns s1 hI1 hl1 hq1
   obtain ⟨rfl, hns⟩ := hq1
   obtain ⟨_, _, _, _, _, hin⟩ := hI1.cells n _ hn hns
-  mbind (unUses_good n hn ns.inputs 0 s1 hI1 (fun ha v hv => (hin ha v hv).1)) with u s2 hI2 hl2 hq2
+  mbind (unUses_good n hn ns.inputs s1 hI1 (fun ha v hv => (hin ha v hv).1)) with u s2 hI2 hl2 hq2
   mbind (GoodAt.readNode hI2) with ns2 s3 hI3 hl3 hq3
   obtain ⟨rfl, hns2⟩ := hq3
   obtain ⟨a, b, c, d, e, _⟩ := hI3.cells n _ hn hns2
